@@ -21,6 +21,7 @@ mod s_c11;
 mod s_c12;
 mod s_c13;
 mod s_c14;
+mod s_c15;
 mod s_c19;
 mod s_c20;
 mod s_smoke;
@@ -82,6 +83,7 @@ fn main() {
         "C12" => s_c12::run(&mut em, thorough, seed),
         "C13" => s_c13::run(&mut em, thorough, seed),
         "C14" => s_c14::run(&mut em, thorough, seed),
+        "C15" => s_c15::run(&mut em, thorough, seed),
         "C19" => s_c19::run(&mut em, thorough, seed),
         "C20" => s_c20::run(&mut em, thorough, seed),
         "smoke" => s_smoke::run(&mut em),
